@@ -361,6 +361,11 @@ def cases_for(O, S, leafmap, full):
     n = len(O.leaves)
     osyn = [dict(zip(O.leaves, t)) for t in spaces.synteny_tuples(n, o2) if ordered.root_orders(dict(zip(O.leaves, t)))]
     usyn = [dict(zip(O.leaves, t)) for t in spaces.synteny_tuples(n, u2)]
+    # every other synteny tuple spells its families with characters that mean something to TeX or to Newick (the drawing
+    # must be produced all the same; whether TeX can typeset it is not decided here)
+    special = {"a": "amp^r", "b": "x#1%&$~{}"}
+    osyn = [d if i % 2 == 0 else {v: tuple(special[f] for f in x) for v, x in d.items()} for i, d in enumerate(osyn)]
+    usyn = [d if i % 2 == 0 else {v: tuple(special[f] for f in x) for v, x in d.items()} for i, d in enumerate(usyn)]
     k = 0
     opats, spats, algos = object_patterns(O), species_patterns(S), ALGOS
     if len(O.leaves) >= 5 or len(S.leaves) >= 5 or (not full and len(S.leaves) == 3):
